@@ -352,6 +352,44 @@ def check_pair(case):
     return out, h64(repr(got))
 
 
+def _sul_fields(sul):
+    return (sul.storage_unit_sequence_number, sul.maximum_record_length, sul.storage_set_identifier, sul.dlis_version, sul.storage_unit_structure)
+
+
+def check_reentry(case):
+    """One reader on a stream the caller owns, used in a 'with' block; the stream is then rewritten with another conformant file
+    and the same reader entered again: inside the second block it reports the label and the records of the file that is there now
+    (what a fresh reader reports for those bytes)."""
+    from TotalDepth.RP66V1.core import File
+    a = materialise(case['a'])[0]
+    b, _lay, recs, _lab = materialise(case['b'])
+    exp = [(r['eflr'], r['type'], r['payload'], r['encrypted']) for r in recs]
+    try:
+        with File.FileRead(io.BytesIO(b)) as fresh:
+            sul_fresh = _sul_fields(fresh.sul)
+        stream = io.BytesIO(a)
+        reader = File.FileRead(stream)
+        with reader:
+            for _fld in reader.iter_logical_records():
+                pass
+        stream.seek(0)
+        stream.truncate()
+        stream.write(b)
+        with reader:
+            sul_again = _sul_fields(reader.sul)
+            got = [(fld.lr_is_eflr, fld.lr_type, fld.logical_data.bytes, fld.lr_is_encrypted) for fld in reader.iter_logical_records()]
+    except Exception as err:  # noqa
+        return [({'kind': 'reentered_reader_raises', 'exc': type(err).__name__}, 'a reader entered a second time: %s: %s' % (type(err).__name__, err))]
+    out = []
+    if sul_again != sul_fresh:
+        out.append(({'kind': 'reentered_reader_label'}, 'a reader entered a second time, its stream holding another file now, reports the label %r; '
+                    'the file has %r' % (sul_again, sul_fresh)))
+    if got != exp:
+        out.append(({'kind': 'reentered_reader_records'}, 'a reader entered a second time, its stream holding another file now, gives %d records '
+                    'that differ from the %d written to that file' % (len(got), len(exp))))
+    return out
+
+
 def run_shard(shard, tier):
     res = Result()
     if shard['gen'] == 'A':
@@ -363,6 +401,7 @@ def run_shard(shard, tier):
     else:
         gen = gen_labels(tier, shard['part'])
     prev = None
+    prev_l = None
     for i, case in enumerate(gen):
         bad, outcome = check_case(case)
         res.case(h64(repr(case)), nontrivial=nontrivial(case), outcome=outcome, sample=case if i == 777 else None)
@@ -375,6 +414,18 @@ def run_shard(shard, tier):
             res.count('interleaved_pairs')
             for sig, msg in pbad:
                 res.violate(sig, pair, msg)
+        if case['shape'] == 'L' and not bad:
+            if prev_l is not None:
+                pair = {'shape': 'R', 'a': prev_l, 'b': case}
+                res.count('reentered_readers')
+                for sig, msg in check_reentry(pair):
+                    res.violate(sig, pair, msg)
+            prev_l = case
+        elif prev is not None and i % 4 == 3 and not bad:
+            pair = {'shape': 'R', 'a': prev, 'b': case}
+            res.count('reentered_readers')
+            for sig, msg in check_reentry(pair):
+                res.violate(sig, pair, msg)
         prev = case if case['shape'] != 'L' else prev
     return res
 
@@ -383,5 +434,7 @@ def replay(case):
     if case.get('shape') == 'P':
         bad, _ = check_pair(case)
         return [{'sig': s, 'case': case, 'msg': m} for s, m in bad]
+    if case.get('shape') == 'R':
+        return [{'sig': s, 'case': case, 'msg': m} for s, m in check_reentry(case)]
     bad, _ = check_case(case)
     return [{'sig': s, 'case': case, 'msg': m} for s, m in bad]
